@@ -259,107 +259,118 @@ theorem registration_catches_up (steps : List RegStep) :
 
 /-! ## Start-up: never served before the caches are synced -/
 
-/-- Invariant of the start-up model with both mechanisms in place. -/
+/-- Invariant of the start-up model with all three mechanisms in place. -/
 structure BootInv (b : Boot) : Prop where
   le : b.caches ≤ b.full
-  ctx_le : ∀ n, b.ctx = some n → n ≤ b.caches
-  stale_pending : ∀ n, b.ctx = some n → n < b.caches → b.pending = true
-  ready_full : b.ready = true → b.caches = b.full ∧ (b.ctx = none ∨ b.ctx = some b.full)
+  com_le : b.committed ≤ b.caches
+  bld : ∀ c k, b.building = some (c, k) → c = k ∧ b.committed ≤ k ∧ k ≤ b.caches
+  ctx_com : b.ctx = none ∨ b.ctx = some b.committed
+  ready_full : b.ready = true → b.caches = b.full ∧ b.committed = b.full
 
 theorem bootInv_init (F : Nat) : BootInv { full := F } := by
-  refine ⟨Nat.zero_le _, ?_, ?_, ?_⟩
-  · intro n h; cases h
-  · intro n h; cases h
+  refine ⟨Nat.zero_le _, Nat.le_refl _, ?_, Or.inl rfl, ?_⟩
+  · intro c k h; cases h
   · intro h; cases h
 
-theorem bootStep_full (gate ini : Bool) (b : Boot) (e : BootStep) : (bootStep gate ini b e).1.full = b.full := by
-  cases e <;> simp only [bootStep] <;> split <;> rfl
+theorem bootStep_full (gate ini cap : Bool) (b : Boot) (e : BootStep) : (bootStep gate ini cap b e).1.full = b.full := by
+  cases e <;> simp only [bootStep] <;> split <;> (try rfl) <;> (try (split <;> rfl))
 
 /-- One step keeps the invariant, and a proxy that connects is refused or served from a context
     initialised from the COMPLETE caches. -/
 theorem bootInv_step (b : Boot) (e : BootStep) (h : BootInv b) :
-    BootInv (bootStep true true b e).1 ∧
-      ∀ o, (bootStep true true b e).2 = some o → o = .refused ∨ o = .from b.full := by
-  obtain ⟨hle, hctx, hstale, hready⟩ := h
+    BootInv (bootStep true true true b e).1 ∧
+      ∀ o, (bootStep true true true b e).2 = some o → o = .refused ∨ o = .from b.full := by
+  obtain ⟨hle, hcom, hbld, hctx, hready⟩ := h
   cases e with
   | load =>
     by_cases hlt : b.caches < b.full
-    · have e : bootStep true true b .load = ({ b with caches := b.caches + 1, pending := true }, none) := by
+    · have e : bootStep true true true b .load = ({ b with caches := b.caches + 1 }, none) := by
         simp [bootStep, hlt]
       rw [e]
-      refine ⟨⟨hlt, ?_, ?_, ?_⟩, by intro o ho; cases ho⟩
-      · intro n hn
-        have := hctx n hn
-        show n ≤ b.caches + 1
+      refine ⟨⟨hlt, ?_, ?_, hctx, ?_⟩, by intro o ho; cases ho⟩
+      · show b.committed ≤ b.caches + 1
         omega
-      · intro _ _ _; rfl
+      · intro c k hb
+        obtain ⟨h1, h2, h3⟩ := hbld c k hb
+        exact ⟨h1, h2, by show k ≤ b.caches + 1; omega⟩
       · intro hr
         have := (hready hr).1
         omega
-    · have e : bootStep true true b .load = (b, none) := by simp [bootStep, hlt]
+    · have e : bootStep true true true b .load = (b, none) := by simp [bootStep, hlt]
       rw [e]
-      exact ⟨⟨hle, hctx, hstale, hready⟩, by intro o ho; cases ho⟩
-  | push =>
-    have e : bootStep true true b .push = ({ b with ctx := some b.caches, pending := false }, none) := rfl
-    rw [e]
-    refine ⟨⟨hle, ?_, ?_, ?_⟩, by intro o ho; cases ho⟩
-    · intro n hn
-      have : b.caches = n := by simpa using hn
-      show n ≤ b.caches
-      omega
-    · intro n hn hlt
-      have : b.caches = n := by simpa using hn
-      have hlt' : n < b.caches := hlt
-      omega
-    · intro hr
-      have := (hready hr).1
-      exact ⟨this, Or.inr (by show some b.caches = some b.full; rw [this])⟩
+      exact ⟨⟨hle, hcom, hbld, hctx, hready⟩, by intro o ho; cases ho⟩
+  | build =>
+    cases hb : b.building with
+    | some p =>
+      have e : bootStep true true true b .build = (b, none) := by simp [bootStep, hb]
+      rw [e]
+      exact ⟨⟨hle, hcom, hbld, hctx, hready⟩, by intro o ho; cases ho⟩
+    | none =>
+      have e : bootStep true true true b .build = ({ b with building := some (b.caches, b.caches) }, none) := by
+        simp [bootStep, hb]
+      rw [e]
+      refine ⟨⟨hle, hcom, ?_, hctx, hready⟩, by intro o ho; cases ho⟩
+      intro c k hck
+      have : b.caches = c ∧ b.caches = k := by simpa using hck
+      obtain ⟨h1, h2⟩ := this
+      subst h1
+      exact ⟨h2, by show b.committed ≤ k; omega, by show k ≤ b.caches; omega⟩
+  | commit =>
+    cases hb : b.building with
+    | none =>
+      have e : bootStep true true true b .commit = (b, none) := by simp [bootStep, hb]
+      rw [e]
+      exact ⟨⟨hle, hcom, hbld, hctx, hready⟩, by intro o ho; cases ho⟩
+    | some p =>
+      obtain ⟨c, k⟩ := p
+      obtain ⟨hck, hk1, hk2⟩ := hbld c k hb
+      subst hck
+      have e : bootStep true true true b .commit = ({ b with ctx := some c, building := none, committed := c }, none) := by
+        simp [bootStep, hb]
+      rw [e]
+      refine ⟨⟨hle, hk2, ?_, Or.inr rfl, ?_⟩, by intro o ho; cases ho⟩
+      · intro c' k' h'; cases h'
+      · intro hr
+        obtain ⟨h1, h2⟩ := hready hr
+        refine ⟨h1, ?_⟩
+        show c = b.full
+        omega
   | markReady =>
-    by_cases hc : b.caches = b.full ∧ b.pending = false
-    · have e : bootStep true true b .markReady = ({ b with ready := true }, none) := by
-        simp [bootStep, hc]
+    by_cases hc : b.caches = b.full ∧ b.caches ≤ b.committed
+    · have e : bootStep true true true b .markReady = ({ b with ready := true }, none) := by
+        simp only [bootStep]
+        rw [if_pos hc]
       rw [e]
-      refine ⟨⟨hle, hctx, hstale, ?_⟩, by intro o ho; cases ho⟩
+      refine ⟨⟨hle, hcom, hbld, hctx, ?_⟩, by intro o ho; cases ho⟩
       intro _
       refine ⟨hc.1, ?_⟩
-      cases hcx : b.ctx with
-      | none => exact Or.inl rfl
-      | some n =>
-        right
-        have h1 := hctx n hcx
-        by_cases hlt : n < b.caches
-        · have := hstale n hcx hlt
-          rw [hc.2] at this; cases this
-        · have : n = b.full := by omega
-          rw [this]
-    · have e : bootStep true true b .markReady = (b, none) := by simp [bootStep, hc]
+      show b.committed = b.full
+      omega
+    · have e : bootStep true true true b .markReady = (b, none) := by
+        simp only [bootStep]
+        rw [if_neg hc]
       rw [e]
-      exact ⟨⟨hle, hctx, hstale, hready⟩, by intro o ho; cases ho⟩
+      exact ⟨⟨hle, hcom, hbld, hctx, hready⟩, by intro o ho; cases ho⟩
   | connect =>
     cases hr : b.ready with
     | false =>
-      have e : bootStep true true b .connect = (b, some .refused) := by simp [bootStep, hr]
+      have e : bootStep true true true b .connect = (b, some .refused) := by simp [bootStep, hr]
       rw [e]
-      exact ⟨⟨hle, hctx, hstale, hready⟩, by intro o ho; left; simpa using ho.symm⟩
+      exact ⟨⟨hle, hcom, hbld, hctx, hready⟩, by intro o ho; left; simpa using ho.symm⟩
     | true =>
-      obtain ⟨hfull, hc⟩ := hready hr
-      have e : bootStep true true b .connect = ({ b with ctx := some b.full }, some (.from b.full)) := by
-        rcases hc with hc | hc <;> simp [bootStep, hr, hc, hfull]
+      obtain ⟨hfull, hcf⟩ := hready hr
+      have e : bootStep true true true b .connect = ({ b with ctx := some b.full }, some (.from b.full)) := by
+        rcases hctx with hc | hc <;> simp [bootStep, hr, hc, hfull, hcf]
       rw [e]
-      refine ⟨⟨hle, ?_, ?_, ?_⟩, by intro o ho; right; simpa using ho.symm⟩
-      · intro n hn
-        have : b.full = n := by simpa using hn
-        show n ≤ b.caches
-        omega
-      · intro n hn hlt
-        have : b.full = n := by simpa using hn
-        have hlt' : n < b.caches := hlt
-        omega
+      refine ⟨⟨hle, hcom, hbld, ?_, ?_⟩, by intro o ho; right; simpa using ho.symm⟩
+      · right
+        show some b.full = some b.committed
+        rw [hcf]
       · intro _
-        exact ⟨hfull, Or.inr rfl⟩
+        exact ⟨hfull, hcf⟩
 
 theorem boot_outcomes (steps : List BootStep) (b : Boot) (h : BootInv b) :
-    ∀ o ∈ (bootRun true true b steps).2, o = .refused ∨ o = .from b.full := by
+    ∀ o ∈ (bootRun true true true b steps).2, o = .refused ∨ o = .from b.full := by
   induction steps generalizing b with
   | nil => intro o ho; simp [bootRun] at ho
   | cons e es ih =>
@@ -367,7 +378,7 @@ theorem boot_outcomes (steps : List BootStep) (b : Boot) (h : BootInv b) :
     obtain ⟨hinv, hout⟩ := bootInv_step b e h
     simp only [bootRun, List.mem_append] at ho
     rcases ho with ho | ho
-    · cases ho1 : (bootStep true true b e).2 with
+    · cases ho1 : (bootStep true true true b e).2 with
       | none => rw [ho1] at ho; simp at ho
       | some o' =>
         rw [ho1] at ho
@@ -377,29 +388,71 @@ theorem boot_outcomes (steps : List BootStep) (b : Boot) (h : BootInv b) :
     · have := ih _ hinv o ho
       rwa [bootStep_full] at this
 
-/-- **Not serving before the caches are synced.**  For every schedule of informer deliveries, pushes,
-    the readiness mark and connecting proxies, from a cold instance: a proxy that connects is either
-    refused (it keeps what it has and retries) or served from a push context that was initialised
-    from the COMPLETE caches - never from an uninitialised or partially filled one. -/
+/-- **Not serving before the caches are synced.**  For every schedule of informer deliveries, debounced
+    pushes (start and completion as separate steps, with deliveries in between), the readiness mark and
+    connecting proxies, from a cold instance: a proxy that connects is either refused (it keeps what it has and
+    retries) or served from a push context that was initialised from the COMPLETE caches - never from an
+    uninitialised or partially filled one. -/
 theorem never_served_cold (F : Nat) (steps : List BootStep) :
-    ∀ o ∈ (bootRun true true { full := F } steps).2, o = .refused ∨ o = .from F :=
+    ∀ o ∈ (bootRun true true true { full := F } steps).2, o = .refused ∨ o = .from F :=
   boot_outcomes steps { full := F } (bootInv_init F)
 
-/-- Non-vacuity: an instance does get ready, and the first proxy is then served from everything.
-    Also when nothing ever triggered a push (`InitContext` in the stream initialises the context). -/
-example : (bootRun true true { full := 2 } [.connect, .load, .push, .connect, .load, .connect, .push, .markReady, .connect]).2
+/-- Non-vacuity: an instance does get ready, and the first proxy is then served from everything -
+    also when an object arrives while a push is running (the push that read the smaller caches does not make the
+    instance ready), and when nothing ever triggered a push (`InitContext` in the stream initialises the context). -/
+example : (bootRun true true true { full := 2 }
+    [.connect, .load, .build, .load, .connect, .commit, .markReady, .connect, .build, .commit, .markReady, .connect]).2
     = [.refused, .refused, .refused, .from 2] := by decide
-example : (bootRun true true { full := 0 } [.connect, .markReady, .connect]).2 = [.refused, .from 0] := by decide
+example : (bootRun true true true { full := 0 } [.connect, .markReady, .connect]).2 = [.refused, .from 0] := by decide
 
 /-- Without the `IsServerReady` gate a reconnecting proxy is served from a half-filled (here: empty)
     context and loses configuration (istio/istio#25495). -/
 theorem no_ready_gate_witness :
-    (bootRun false true { full := 2 } [.load, .connect]).2 = [.from 1] ∧
-    (bootRun false true { full := 2 } [.connect]).2 = [.from 0] := by decide
+    (bootRun false true true { full := 2 } [.load, .connect]).2 = [.from 1] ∧
+    (bootRun false true true { full := 2 } [.connect]).2 = [.from 0] := by decide
 
 /-- Without `InitContext` in the stream entry point a ready instance on which nothing triggered a push
     yet serves from a never-initialised context. -/
 theorem no_init_context_witness :
-    (bootRun true false { full := 0 } [.markReady, .connect]).2 = [.cold] := by decide
+    (bootRun true false true { full := 0 } [.markReady, .connect]).2 = [.cold] := by decide
+
+/-- **The committed counter must move only after the push has published its context.**  If the debouncer counts
+    the merged updates as committed when the push STARTS, bootstrap's `CommittedUpdates >= InboundUpdates` test
+    passes while the context built from the complete caches is not published yet: the instance is marked ready on
+    the context of an earlier push, `InitContext` in the stream is a no-op on it, and the reconnecting proxy is
+    served from partial caches. -/
+theorem commit_before_push_witness :
+    (bootRun true true false { full := 2 } [.load, .build, .commit, .load, .build, .markReady, .connect]).2 = [.from 1] := by
+  decide
+
+/-! ## `ProxyUpdate` with two connections of one proxy -/
+
+/-- With the repair every registered connection of the proxy - in particular the live one - reads the new labels,
+    whatever the map order. -/
+theorem proxyUpdate_reaches_every_connection (n : Nat) (conns : List PConn) :
+    ∀ c ∈ proxyUpdate true n conns, c.labels = n := by
+  induction conns with
+  | nil => intro c hc; cases hc
+  | cons x xs ih =>
+    intro c hc
+    simp only [proxyUpdate, if_true, List.mem_cons] at hc
+    rcases hc with hc | hc
+    · rw [hc]
+    · exact ih c hc
+
+theorem proxyUpdate_keeps_connections (b : Bool) (n : Nat) (conns : List PConn) :
+    (proxyUpdate b n conns).map (·.live) = conns.map (·.live) := by
+  induction conns with
+  | nil => rfl
+  | cons x xs ih =>
+    cases b
+    · simp [proxyUpdate]
+    · simp only [proxyUpdate, if_true, List.map_cons, ih]
+
+/-- **Before repair 234a295**: when the map yields the dead (not yet noticed) connection first, the live stream
+    keeps the old labels - and with them the old Sidecar selection - until something else updates the proxy. -/
+theorem proxyUpdate_first_match_witness :
+    proxyUpdate false 1 [{ live := false, labels := 0 }, { live := true, labels := 0 }]
+      = [{ live := false, labels := 1 }, { live := true, labels := 0 }] := by decide
 
 end IstioModel.C05
